@@ -31,7 +31,7 @@ def main(argv=None):
     if a.replay:
         return core.replay(mod, a.replay)
     rc = core.run_check(mod, a.tier, seed, a.budget)
-    evp = os.path.join(core.VERIF, "evidence", mod.ID + ".json")
+    evp = os.path.join(core.OUT, "evidence", mod.ID + ".json")
     v = subprocess.run(
         ["python3-vt", os.path.join(core.VERIF, "mc", "validate_evidence.py"), evp],
         capture_output=True, text=True)
